@@ -11,7 +11,14 @@
     xattr block, value inodes, bitmaps; entry/block hashes and the value-inode crc32c recomputed) and the step is
     validated by TLC against spec/Trace_XattrPlace.tla: exact placement, order, sizes, offsets, reference counts,
     free-block / free-inode / i_blocks accounting, and get-of-every-name = the model map; all invariants at every step.
-(3) `e2fsck -fn` must be clean at the end of every history (consistent(); to be replaced by the independent reader)."""
+(3) `e2fsck -fn` must be clean at the end of every history (consistent(); to be replaced by the independent reader).
+(4) The alphabet contains the operations of the OTHER subsystem that rewrites the attribute area of the same inode,
+    inline data (lib/ext2fs/inline_data.c reached through fileio.c / punch.c / mkdir.c + expanddir.c): file writes and
+    truncations across the 60-byte i_block limit, the inode-body limit and the block limit (inline -> block
+    conversion), direct ext2fs_inline_data_set / _expand, ext2fs_punch, and ext2fs_mkdir in an inline directory until
+    it is converted -- interleaved with set/remove of user attributes.  XattrPlace states what each of them does to
+    the placement (system.data present iff EXT4_INLINE_DATA_FL: invariant DataIffInline) and the same per-step
+    validation applies.  Sizes come from the boundary catalogue fsizes_for() computed from the spec's constants."""
 import struct, os, sys, json, random, shutil, subprocess, time, threading, re, hashlib
 import concurrent.futures as cf
 from common import VERIF, fast_tmp, seed, die_broken, tool_env, run as crun
@@ -64,6 +71,25 @@ def vlens_for(p, tier="quick"):
     return sorted(s)
 
 
+def SIZE(v):
+    return (v + 3) // 4 * 4
+
+
+def fsizes_for(p, tier="quick"):
+    """byte counts of file operations on an inline-data inode: around the i_block limit (60), around the largest
+    system.data an otherwise empty inode body holds, around the limit left by one user attribute of some
+    (name length, value length) classes, around one block, and beyond."""
+    f = ibspace(p["isz"]) - LEN(4)
+    s = {1, 10, 59, 60, 61, 100, 60 + f - 1, 60 + f, 60 + f + 1, BS - 1, BS, BS + 1, 3000}
+    for nl, v in ((1, 4), (1, 0), (5, 30)) + (((30, 200),) if tier == "thorough" else ()):
+        g = f - LEN(nl) - SIZE(v)
+        if g > 0:
+            s |= {60 + g, 60 + g + 1}
+    return sorted(s)
+
+
+DNAMELENS = [3, 8, 20, 40]          # EXT2_DIR_REC_LEN 12 / 16 / 28 / 48: sums hit the 56-byte inline limit exactly (28+28, 12+16+28) or pass it
+
 PROFILES = {
     "i256":     dict(isz=256, ea=0, csum=0, inline=0, names=[1, 2, 3, 4, 5, 6, 9], raw=0),
     "i128":     dict(isz=128, ea=0, csum=0, inline=0, names=[1, 2, 3, 4, 5, 6, 9], raw=0),
@@ -74,7 +100,9 @@ PROFILES = {
     "i128ea":   dict(isz=128, ea=1, csum=1, inline=0, names=[1, 2, 3, 4, 5, 6], raw=0),
     "i256inl":  dict(isz=256, ea=0, csum=1, inline=1, names=[1, 2, 3, 4, 5, 6, 7], raw=0),
     "i1024inlea": dict(isz=1024, ea=1, csum=0, inline=1, names=[1, 2, 3, 4, 5, 6, 7], raw=0),
+    "i256inldir": dict(isz=256, ea=0, csum=1, inline=1, isdir=1, names=[1, 2, 3, 4, 5, 6, 7], raw=0),   # system.data is never set directly on a directory
 }
+INITSZ = 10          # bytes the inline file under test holds initially ("0123456789")
 
 _pat = {}
 
@@ -83,7 +111,7 @@ def pattern(tag, n):
     k = (tag, n)
     b = _pat.get(k)
     if b is None:
-        b = bytes(((tag * 37 + i * 7 + (i >> 8) * 13 + 1) & 0xFF) for i in range(n))
+        b = bytes((1 + (tag * 37 + i * 7 + (i >> 8) * 13) % 251) for i in range(n))       # never 0; tags differ at every position
         _pat[k] = b
     return b
 
@@ -98,27 +126,39 @@ def fnv(b):
 _fnv = {}
 
 
-def tag_of_digest(n, dg):
-    if n == 0:
-        return 0
-    for t in TAGS:
-        k = (t, n)
+def tag_of_digest(n, nz, dg):
+    """value of n bytes whose first nz are non-zero and the rest zero, known by its digest: which tag's pattern is it?"""
+    if nz < 0 or nz > n:
+        return -1
+    for t in ((0,) if nz == 0 else TAGS):
+        k = (t, n, nz)
         if k not in _fnv:
-            _fnv[k] = fnv(pattern(t, n))
+            _fnv[k] = fnv(pattern(t, nz) + b"\0" * (n - nz))
         if _fnv[k] == dg:
             return t
     return -1
 
 
+def nzprefix(b):
+    k = 0
+    while k < len(b) and b[k]:
+        k += 1
+    return k if not any(b[k:]) else -1
+
+
 def tag_of_bytes(b):
+    """-> (tag, nz): the first nz bytes are the pattern of `tag`, the rest is zero (tag 0 iff nz = 0); (-1, -1) otherwise"""
     if b is None:
-        return -1
-    if len(b) == 0:
-        return 0
+        return -1, -1
+    nz = nzprefix(b)
+    if nz < 0:
+        return -1, -1
+    if nz == 0:
+        return 0, 0
     for t in TAGS:
-        if pattern(t, len(b)) == b:
-            return t
-    return -1
+        if pattern(t, nz) == b[:nz]:
+            return t, nz
+    return -1, nz
 
 
 # ---------------------------------------------------------------------------------------------------------------
@@ -140,9 +180,14 @@ def make_base(b, env, work, pname):
         die_broken("mke2fs failed for profile %s: %s" % (pname, e.decode()[-400:]))
     small = os.path.join(work, "small.bin")
     with open(small, "wb") as f:
-        f.write(b"0123456789")
+        f.write(b"0123456789"[:INITSZ])
     src = small if p["inline"] else "/dev/null"
-    rc, o, e = crun([b + "/debugfs/debugfs", "-w", img, "-R", "write %s f" % src], env=env, timeout=60)
+    if p.get("isdir"):          # the inode under test is a directory made by ext2fs_mkdir (debugfs mkdir is silent on success)
+        rc, o, e = crun([b + "/debugfs/debugfs", "-w", img, "-R", "mkdir f"], env=env, timeout=60)
+        if rc == 0 and not [x for x in e.decode().splitlines() if x.startswith(("mkdir", "ext2fs_mkdir", "do_mkdir"))]:
+            o += b"Allocated inode"
+    else:
+        rc, o, e = crun([b + "/debugfs/debugfs", "-w", img, "-R", "write %s f" % src], env=env, timeout=60)
     rc2, o2, e2 = crun([b + "/debugfs/debugfs", "-w", img, "-R", "write /dev/null g"], env=env, timeout=60)
     if rc or rc2 or b"Allocated inode" not in o or b"Allocated inode" not in o2:
         die_broken("debugfs write failed for profile %s: %s %s" % (pname, e.decode()[-300:], e2.decode()[-300:]))
@@ -167,7 +212,7 @@ def consistent(b, env, img):
 
 def entry_log(e, why):
     n = BYKEY.get((e["idx"], e["name"]), 0)
-    tag = tag_of_bytes(e["val"])
+    tag, nz = tag_of_bytes(e["val"])
     ok = 1
     if not e["hash_ok"]:
         ok = 0; why.append("entry hash of %r" % e["name"])
@@ -182,11 +227,11 @@ def entry_log(e, why):
         for what, c in conds:
             if not c:
                 ok = 0; why.append("value inode %d: %s" % (a["ino"], what))
-    return [n, e["vlen"], tag, 1 if e["inum"] else 0, e["off"], ref, ok]
+    return [n, e["vlen"], tag, 1 if e["inum"] else 0, e["off"], ref, ok, nz]
 
 
 def gets_log(g):
-    return [[x[0], tag_of_digest(x[0], x[1]) if x[0] >= 0 else 0] for x in g]
+    return [[x[0], tag_of_digest(x[0], x[2], x[1]), x[2]] if x[0] >= 0 else [x[0], 0, 0] for x in g]
 
 
 def observe(img, d, ino=None):
@@ -216,6 +261,9 @@ def observe(img, d, ino=None):
             r["free_blocks"], r["free_inodes"], r["gd_free_blocks"], r["gd_free_inodes"], d.get("fb"), d.get("fi")))
     st["gdok"] = 1 if gd else 0
     st["iblk"] = r["iblocks"]
+    st["inl"] = 1 if r["i_flags"] & xattrparse.INLINE_DATA_FL else 0
+    st["isize"] = r["i_size"]
+    st["ilen"] = d["ilen"]
     st["gets"] = gets_log(d["gets"])
     st["pgets"] = gets_log(d["pgets"])
     st["peer"] = gets_log(d["peer"])
@@ -225,22 +273,50 @@ def observe(img, d, ino=None):
 # ---------------------------------------------------------------------------------------------------------------
 # history generation (seeded; inside the closed universe names x vlens x tags of the profile)
 
+def file_op(rng, p, front, ct, tier):
+    """one operation of the inline-data subsystem on the inode under test (sizes from the boundary catalogue)"""
+    if p.get("isdir"):
+        if front == "debugfs":      # debugfs mkdir, or debugfs write of an empty file into the directory (ext2fs_new_inode + ext2fs_link)
+            return [rng.choice(["mkdirin", "writein"]), rng.choice(DNAMELENS)]
+        return ["mkdirin", rng.choice(DNAMELENS)] if rng.random() < 0.92 else ["iexp"]
+    if front == "debugfs":
+        return ["punch"]
+    fs = fsizes_for(p, tier)
+    k = rng.random()
+    if k < 0.55:
+        return ["write", rng.choice(fs), ct]
+    if k < 0.80:
+        return ["trunc", rng.choice([0] + fs)]
+    if k < 0.90:
+        return ["iset", rng.choice([0] + fs), ct]
+    return ["iexp"] if k < 0.95 else ["punch"]
+
+
 def gen_history(rng, pname, nops, front, tier="quick"):
     p = PROFILES[pname]
-    names = list(p["names"])
+    names = [n for n in p["names"] if not (p.get("isdir") and n == DATA)]
     vl = vlens_for(p, tier)
     edge = [v for v in vl if v > 4]
     ops = []
     present = set([DATA] if p["inline"] else [])
     shared = False
+    # inline-data inodes: a share of the histories interleaves the other subsystem's operations; those write ONE
+    # content pattern (ct) into the inline area (precondition of PWrite: the area never mixes two patterns)
+    ct = rng.choice(TAGS)
+    pf = 0.0 if not p["inline"] else (0.35 if rng.random() < 0.7 else 0.0)
+    if p.get("isdir"):
+        pf = 0.45
     for _ in range(nops):
+        if pf and rng.random() < pf:
+            ops.append(file_op(rng, p, front, ct, tier))
+            continue
         k = rng.random()
         if k < 0.70 or not present:
             n = rng.choice(names)
             v = rng.choice(edge) if rng.random() < 0.8 else rng.choice(vl)
             if n == DATA:
                 v = rng.choice([0, 1, 4, 30, ibspace(p["isz"]) - LEN(4) - 1, ibspace(p["isz"]) - LEN(4), ibspace(p["isz"]) - LEN(4) + 1])
-            ops.append(["set", n, v, rng.choice(TAGS)])
+            ops.append(["set", n, v, ct if (pf and n == DATA) else rng.choice(TAGS)])
             present.add(n)
         elif k < 0.92:
             c = [n for n in names if n != DATA]
@@ -281,7 +357,7 @@ class Driver:
 
 
 def reset_line(p, st):
-    return {"e": "reset", "isz": p["isz"], "bs": BS, "eainode": p["ea"], "inline": p["inline"],
+    return {"e": "reset", "isz": p["isz"], "bs": BS, "eainode": p["ea"], "inline": p["inline"], "isdir": p.get("isdir", 0),
             "names": [[NAMES[i][1], list(NAMES[i][2])] for i in sorted(NAMES)], "st": st}
 
 
@@ -305,9 +381,17 @@ def run_lib(drvbin, b, env, base, img, pname, beh):
             elif op[0] == "rm":
                 o = d.send("rm %s" % NAMES[op[1]][0])
                 ln = {"e": "rm", "n": op[1], "ret": o["ret"]}
+            elif op[0] in ("write", "iset"):
+                o = d.send("%s %d %d" % (op[0], op[1], op[2]))
+                ln = {"e": op[0], "v": op[1], "t": op[2], "ret": o["ret"]}
+            elif op[0] in ("trunc", "mkdirin"):
+                o = d.send("%s %d" % (op[0], op[1]))
+                ln = {"e": op[0], "v": op[1], "ret": o["ret"]}
             else:
                 o = d.send(op[0])
                 ln = {"e": op[0], "ret": o["ret"]}
+            if o["e"] == "skip":            # the driver did not issue it: the inode on disk is not an inline-data inode
+                ln = {"e": "skip", "ret": o["ret"]}
             if o["ret"] == 2 or "flusherr" in o:
                 ln["err"] = o.get("err", "") + o.get("flusherr", "")
             st, why = observe(img, o)
@@ -341,6 +425,7 @@ def debugfs_step(b, env, img, work, cmd):
     with open(script, "w") as f:
         if cmd:
             f.write(cmd + "\n")
+        f.write("stat f\n")
         f.write("ea_list f\n")
         for i in sorted(NAMES):
             outs[i] = os.path.join(work, "get%d.bin" % i)
@@ -357,7 +442,7 @@ def debugfs_step(b, env, img, work, cmd):
     # split the output per command
     sect = re.split(r"^debugfs: ", out, flags=re.M)
     ret = 0
-    first = [x for x in err.splitlines() if x.startswith(("ea_set:", "ea_rm:"))]
+    first = [x for x in err.splitlines() if x.startswith(("ea_set:", "ea_rm:", "punch:", "mkdir:", "do_mkdir_internal:", "ext2fs_mkdir:", "write:", "do_write_internal:", "ext2fs_link:", "ext2fs_new_inode:"))]
     if first:
         ret = 1 if NOSPACE in first[0] else 2
 
@@ -375,18 +460,24 @@ def debugfs_step(b, env, img, work, cmd):
         for i in sorted(NAMES):
             nm = NAMES[i][0]
             if nm not in lst:
-                g.append([-1, ""])
+                g.append([-1, "", 0])
                 continue
             try:
                 data = open(outs[i] + suffix, "rb").read()
             except OSError:
                 data = None
             if data is None or len(data) != lst[nm]:
-                g.append([-2, "ea_get/ea_list disagree"])
+                g.append([-2, "ea_get/ea_list disagree", 0])
             else:
-                g.append([len(data), fnv(data)])
+                g.append([len(data), fnv(data), nzprefix(data)])
         return g
-    return ret, dict(gets=gets(lf, ""), pgets=[], peer=gets(lg, ".peer")), (first[0] if first else "")
+    ilen = -1           # what `stat` reports through ext2fs_inline_data_size
+    for s_ in sect:
+        if s_.startswith("stat f"):
+            m = re.search(r"^Size of inline data: (\d+)", s_, flags=re.M)
+            if m:
+                ilen = int(m.group(1))
+    return ret, dict(gets=gets(lf, ""), pgets=[], peer=gets(lg, ".peer"), ilen=ilen), (first[0] if first else "")
 
 
 def run_debugfs(b, env, base, img, work, pname, beh):
@@ -398,8 +489,12 @@ def run_debugfs(b, env, base, img, work, pname, beh):
         ret, o, _ = debugfs_step(b, env, img, work, "")
         st, why = observe(img, o, ino)
         lines.append(dict(reset_line(p, st), why=why))
+        nsub = 0
         for k, op in enumerate(beh["ops"]):
-            if op[0] == "set":
+            if op[0] == "set" and op[1] == DATA and not (xattrparse.parse(img, ino)["i_flags"] & xattrparse.INLINE_DATA_FL):
+                ret, o, msg = debugfs_step(b, env, img, work, "")      # precondition of PSet(system.data) does not hold on disk
+                ln = {"e": "skip", "ret": 5}
+            elif op[0] == "set":
                 vf = os.path.join(work, "val.bin")
                 with open(vf, "wb") as f:
                     f.write(pattern(op[3], op[2]))
@@ -408,6 +503,13 @@ def run_debugfs(b, env, base, img, work, pname, beh):
             elif op[0] == "rm":
                 ret, o, msg = debugfs_step(b, env, img, work, "ea_rm f %s" % NAMES[op[1]][0])
                 ln = {"e": "rm", "n": op[1], "ret": ret}
+            elif op[0] == "punch":
+                ret, o, msg = debugfs_step(b, env, img, work, "punch f 0")
+                ln = {"e": "punch", "ret": ret}
+            elif op[0] in ("mkdirin", "writein"):
+                nsub += 1
+                ret, o, msg = debugfs_step(b, env, img, work, "%s f/%s" % ("mkdir" if op[0] == "mkdirin" else "write /dev/null", ("n%02d" % nsub).ljust(op[1], "x")))
+                ln = {"e": "mkdirin", "v": op[1], "ret": ret}
             else:
                 continue
             if ret == 2:
@@ -431,7 +533,7 @@ def run_debugfs(b, env, base, img, work, pname, beh):
 
 DEVS = dict(DevKeepEmptyBlock="FALSE", DevNoEaCharge="FALSE", DevCowNoEaRef="FALSE")
 INVS = ["Refines", "NoDup", "NoOverflow", "SortedBlock", "DataInIbody", "BlockIffEntries", "Shared", "EaRefs",
-        "EaSizes", "PeerIntact", "EaOnlyWithFeature", "Charge"]
+        "EaSizes", "PeerIntact", "EaOnlyWithFeature", "Charge", "DataIffInline", "ValueShapes"]
 
 
 def tla_set(xs):
@@ -442,6 +544,7 @@ def constants_for(pname, mc=None):
     p = PROFILES[pname]
     c = dict(Names=tla_set(p["names"]), VLens="0..70000", Tags=tla_set(TAGS), ISZ=p["isz"], EXTRA=32, BS=BS,
              EAINODE="TRUE" if p["ea"] else "FALSE", INLINE="TRUE" if p["inline"] else "FALSE", WithPeer="TRUE",
+             ISDIR="TRUE" if p.get("isdir") else "FALSE", INITSZ=INITSZ, FSizes="{}", DNameLens="{}",
              MaxOps=1000000, MaxEa=2 * len(p["names"]) + 2)
     c.update(DEVS)
     if mc:
@@ -464,7 +567,12 @@ MC_RUNS = {
     "quick": [("i256", [1, 2, 3, 4, 5, 6], [0, 4, 67, 68, 69, 500, 968, 969], [1, 2], 3, False),
               ("i256ea", [1, 2, 3, 4], [0, 4, 68, 69, 500, 968, 969, 2000], [1, 2], 3, True),
               ("i128", [1, 2, 3, 4, 5], [0, 4, 500, 967, 968, 969], [1], 4, True),
-              ("i256inl", [1, 2, 4, 7], [0, 4, 44, 48, 49, 68, 500, 968], [1, 2], 3, False)],
+              ("i256inl", [1, 2, 4, 7], [0, 4, 44, 48, 49, 68, 500, 968], [1, 2], 3, False),
+              # the inline-data subsystem interleaved: file sizes around 60, around the body limit alone (128) and next
+              # to user.a = 4 bytes (104), around one block; an inline directory filled by sub-directories
+              ("i256inl", [1, 4, 7], [0, 4, 44, 68, 500], [1, 2], 3, True,
+               dict(FSizes=[1, 60, 61, 104, 105, 128, 129, 1024, 1025, 3000])),
+              ("i256inldir", [1, 4, 7], [0, 4, 68, 69, 500], [1], 4, True, dict(DNameLens=[3, 20, 40]))],
 }
 MC_RUNS["thorough"] = [
     ("i256", [1, 2, 3, 4, 5, 6], [0, 1, 4, 67, 68, 69, 500, 967, 968, 969, 2000], [1, 2], 4, False),
@@ -476,17 +584,26 @@ MC_RUNS["thorough"] = [
     ("i128ea", [1, 2, 3, 4], [4, 500, 968, 969, 2000], [1], 5, True),
     ("i256inl", [1, 2, 3, 4, 7], [0, 4, 44, 48, 49, 68, 500, 968, 969], [1, 2], 4, False),
     ("i1024inlea", [1, 2, 4, 7], [4, 500, 816, 817, 836, 968, 969, 2000], [1], 4, True),
+    ("i256inl", [1, 4, 7], [0, 4, 44, 68, 500], [1], 4, True,
+     dict(FSizes=[1, 60, 61, 104, 105, 128, 129, 1024, 1025, 3000])),
+    ("i1024inlea", [1, 4, 7], [4, 500, 836, 2000], [1], 4, True,
+     dict(FSizes=[1, 60, 61, 100, 895, 896, 897, 1024, 1025, 3000])),
+    ("i256inldir", [1, 2, 4, 7], [0, 4, 68, 69, 500, 968], [1], 5, True, dict(DNameLens=[3, 8, 20, 40])),
 ]
 
 
 def model_check(ev, vd, tier, work):
     """exhaustive BFS over all set/remove(/share) sequences up to a depth + simulation of longer ones."""
-    for k, (pname, names, vlens, tags, depth, peer) in enumerate(MC_RUNS[tier]):
+    for k, run_ in enumerate(MC_RUNS[tier]):
+        pname, names, vlens, tags, depth, peer = run_[:6]
+        more = run_[6] if len(run_) > 6 else {}
         cfg = os.path.join(work, "MC_%d.cfg" % k)
         consts = constants_for(pname, dict(Names=tla_set(names), VLens=tla_set(vlens), Tags=tla_set(tags), MaxOps=depth,
                                            WithPeer="TRUE" if peer else "FALSE", MaxEa=2 * len(names) + 2))
+        consts.update({c: tla_set(v) for c, v in more.items()})
         T.write_cfg(cfg, spec="Spec", constants=consts, invariants=["TypeOK"] + INVS)
-        label = "XattrPlace %s names=%d vlens=%d tags=%d peer=%s: all sequences <= %d" % (pname, len(names), len(vlens), len(tags), peer, depth)
+        label = "XattrPlace %s names=%d vlens=%d tags=%d peer=%s%s: all sequences <= %d" % (
+            pname, len(names), len(vlens), len(tags), peer, "".join(" %s=%d" % (c, len(v)) for c, v in more.items()), depth)
         r = T.tlc(os.path.join(SPEC, "XattrPlace.tla"), cfg, workers=JOBS, timeout=2400, xmx="4g")
         ev.add_tlc(r, label)
         if r.violated:
@@ -520,8 +637,14 @@ def moves(lines):
     '*>ea' into a value inode, 'ea>*' out of one."""
     where = {}
     kinds = set()
+    inl = None
     for ln in lines:
         st = ln["st"]
+        if inl == 1 and st["inl"] == 0:
+            kinds.add("inline>block")          # the inode stops being an inline-data inode: system.data must go
+        if st["inl"] and any(e[0] == DATA and e[1] > 0 for e in st["ibody"]):
+            kinds.add("i_block>system.data")   # the inline data crossed the 60-byte limit
+        inl = st["inl"]
         cur = {}
         for e in st["ibody"]:
             cur[e[0]] = ("ea", "i") if e[3] else ("i", "i")
@@ -577,6 +700,10 @@ def describe(beh, k):
         return "set %s len=%d tag=%d" % (NAMES[op[1]][0], op[2], op[3])
     if op[0] == "rm":
         return "rm %s" % NAMES[op[1]][0]
+    if op[0] in ("write", "iset"):
+        return "%s %d bytes tag=%d" % (op[0], op[1], op[2])
+    if op[0] in ("trunc", "mkdirin", "writein"):
+        return "%s %d" % (op[0], op[1])
     return op[0]
 
 
@@ -596,58 +723,80 @@ def chunks_of(tb, chunk_lines):
     return chunks
 
 
+def validate_profile(work, pname, idxs, behs, results):
+    """TLC trace validation of the behaviours `idxs` of one profile.  Chunks of behaviours, one TLC process each.  A chunk
+    stops at its first rejected behaviour: that one is confirmed alone and reported, and the behaviours behind it go
+    back into the queue as ONE chunk, so a tree on which very many behaviours fail costs a bounded number of TLC runs.
+    Returns dict(bad=[(key, what, replay)], unchecked, distinct, generated, broken)."""
+    mod = os.path.join(SPEC, "Trace_XattrPlace.tla")
+    out = dict(bad=[], unchecked=0, distinct=0, generated=0, broken=None)
+    cfg = trace_cfg(work, pname)
+    tb = [strip(results[i][0]) for i in idxs]
+    wd = os.path.join(work, "tv_" + pname)
+    os.makedirs(wd, exist_ok=True)
+    pending = chunks_of(tb, CHUNK)
+    rnd = 0
+    while pending and len(out["bad"]) < MAX_REPORT:
+        rnd += 1
+        nxt = []
+        for ci, ch in enumerate(pending):
+            path = os.path.join(wd, "chunk_r%d_%03d.ndjson" % (rnd, ci))
+            with open(path, "w") as f:
+                for j in ch:
+                    f.write("\n".join(tb[j]) + "\n")
+            r = tracecheck._run_chunk((mod, cfg, path, sum(len(tb[j]) for j in ch), 1200, False))
+            out["distinct"] += r["distinct"]; out["generated"] += r["generated"]
+            if r["accepted"]:
+                continue
+            if r["error"] and r["violated"] is None:
+                out["broken"] = "TLC failed on a trace chunk (%s): %s\n%s" % (pname, r["error"], r["out_tail"][-1500:])
+                return out
+            m = r["matched"] if r["matched"] is not None else 0
+            pos, hit = 0, len(ch) - 1
+            for q, j in enumerate(ch):
+                if m < pos + len(tb[j]):
+                    hit = q; break
+                pos += len(tb[j])
+            if ch[hit + 1:]:
+                nxt.append(ch[hit + 1:])
+            if len(out["bad"]) >= MAX_REPORT:
+                nxt.append([ch[hit]]); continue
+            rej, matched, inv, tail, _ = tracecheck.confirm(tb[ch[hit]], mod, cfg, wd)      # re-run alone before reporting
+            if rej:
+                i = idxs[ch[hit]]
+                k = matched if matched is not None else 0
+                ln = results[i][0][k] if k < len(results[i][0]) else {}
+                what = ("invariant %s violated" % inv[2:] if inv else "step is not a step of XattrPlace")
+                key = "%s@%s" % (inv[2:] if inv else "rejected", ln.get("e", "?"))
+                out["bad"].append((key, "%s: profile %s front %s, step %d (%s) %s" % (
+                    what, pname, behs[i]["front"], k, describe(behs[i], k - 1), "; ".join(ln.get("why", []))[:200]),
+                    {"behaviour": behs[i], "first_unmatched_line": k, "line": ln, "tlc_tail": tail[-1200:]}))
+        pending = nxt
+    out["unchecked"] = sum(len(ch) for ch in pending)
+    return out
+
+
 def validate(vd, ev, work, behs, results):
-    """TLC trace validation per profile; returns the number of behaviours accepted."""
+    """TLC trace validation, the profiles in parallel; returns the number of behaviours accepted."""
     accepted = 0
     byp = {}
     for i, beh in enumerate(behs):
-        byp.setdefault(beh["profile"], []).append(i)
-    mod = os.path.join(SPEC, "Trace_XattrPlace.tla")
-    for pname, idxs in byp.items():
-        idxs = [i for i in idxs if results[i][0] and not any(k in ("crash", "unparseable") for k, _ in results[i][1])]
-        if not idxs:
-            continue
-        cfg = trace_cfg(work, pname)
-        tb = [strip(results[i][0]) for i in idxs]
-        wd = os.path.join(work, "tv_" + pname)
-        os.makedirs(wd, exist_ok=True)
-        todo = list(range(len(tb)))
-        nbad = 0
-        unchecked = 0
-        while todo:
-            if nbad >= MAX_REPORT:          # enough evidence for this profile; do not spend a TLC start per further failure
-                unchecked = len(todo)
-                break
-            sub = [tb[j] for j in todo]
-            res = tracecheck.validate(sub, mod, cfg, wd, chunk_lines=CHUNK, jobs=JOBS, timeout=1200)
-            if res["broken"]:
-                die_broken("TLC failed on a trace chunk (%s): %s\n%s" % (pname, res["broken"][0]["error"], res["broken"][0]["out_tail"][-1500:]))
-            ev.cov["states"] += res["distinct"]; ev.cov["transitions"] += res["generated"]
-            if not res["failures"]:
-                break
-            ch = chunks_of(sub, CHUNK)
-            nxt = []
-            for f in res["failures"]:
-                if nbad >= MAX_REPORT:
-                    break
-                bi = f["behaviour"]
-                rej, matched, inv, tail, _ = tracecheck.confirm(sub[bi], mod, cfg, wd)      # re-run alone before reporting
-                if rej:
-                    nbad += 1
-                    i = idxs[todo[bi]]
-                    k = matched if matched is not None else 0
-                    ln = results[i][0][k] if k < len(results[i][0]) else {}
-                    what = ("invariant %s violated" % inv[2:] if inv else "step is not a step of XattrPlace")
-                    key = "%s@%s" % (inv[2:] if inv else "rejected", ln.get("e", "?"))
-                    vd.violation(key, "%s: profile %s front %s, step %d (%s) %s" % (
-                        what, pname, behs[i]["front"], k, describe(behs[i], k - 1), "; ".join(ln.get("why", []))[:200]),
-                        {"behaviour": behs[i], "first_unmatched_line": k, "line": ln, "tlc_tail": tail[-1200:]})
-            # tracecheck.validate re-runs the behaviours behind a failure itself: every behaviour of `sub` has been looked at
-            todo = []
-        accepted += len(idxs) - nbad - unchecked
-        if unchecked:
+        if results[i][0] and not any(k in ("crash", "unparseable") for k, _ in results[i][1]):
+            byp.setdefault(beh["profile"], []).append(i)
+    names = sorted(byp, key=lambda pn: -sum(len(results[i][0]) for i in byp[pn]))          # longest first
+    with cf.ThreadPoolExecutor(max_workers=JOBS) as ex:
+        outs = list(ex.map(lambda pn: validate_profile(work, pn, byp[pn], behs, results), names))
+    for pn, o in zip(names, outs):
+        if o["broken"]:
+            die_broken(o["broken"])
+    for pn, o in zip(names, outs):
+        ev.cov["states"] += o["distinct"]; ev.cov["transitions"] += o["generated"]
+        for key, what, rep_ in o["bad"]:
+            vd.violation(key, what, rep_)
+        accepted += len(byp[pn]) - len(o["bad"]) - o["unchecked"]
+        if o["unchecked"]:
             ev.cov.setdefault("not_validated_after_violations", 0)
-            ev.cov["not_validated_after_violations"] += unchecked
+            ev.cov["not_validated_after_violations"] += o["unchecked"]
     return accepted
 
 
@@ -698,6 +847,34 @@ def probe_cow(vd, ev, b, drvbin, env, work, bases):
     return n
 
 
+def inline_catalogue(pname, tier):
+    """enumerated part of the inline-data universe: every pair (preparation, growth / shrink operation) and
+    (file operation, attribute operation) over the boundary catalogue of the profile -- the state the second
+    operation meets is inline with system.data empty / non-empty / next to a user attribute, or already converted."""
+    p = PROFILES[pname]
+    if p.get("isdir"):
+        seqs = []
+        for pre in ([], [["set", 1, 4, 1]], [["set", 4, 500, 1]]):
+            for fill in ([20, 20], [3, 8, 20], [3, 3, 8, 8], [20, 8, 3], [40]):          # exactly 56 bytes of entries (48 for [40])
+                for last in DNAMELENS:
+                    seqs.append(pre + [["mkdirin", x] for x in fill] + [["mkdirin", last], ["set", 2, 4, 2], ["rm", 1]])
+        return seqs
+    fs = fsizes_for(p, tier)
+    f = ibspace(p["isz"]) - LEN(4)
+    g = f - LEN(1) - 4
+    xops = [["set", 1, 4, 2], ["set", 1, ibspace(p["isz"]) - LEN(4) - LEN(1), 2], ["set", 4, 500, 2], ["set", DATA, 30, 1], ["rm", 1]]
+    if tier == "quick":         # the limits only: i_block, the body alone and next to user.a = 4 bytes, one block
+        fs = [x for x in fs if x in (60, 61, 60 + f, 60 + f + 1, 60 + g, 60 + g + 1, BS, BS + 1)]
+        writes = [["write", x, 1] for x in fs]
+        fileops = writes + [["trunc", x] for x in (0, 30, 61)] + [["iset", x, 1] for x in (61, 60 + f + 1)] + [["iexp"], ["punch"]]
+        xops = xops[:4]
+        second = fileops if p["isz"] == 256 else writes        # the large-inode profile repeats the growth half only
+        return [[a, c] for a in xops + fileops for c in second] + [[a, c] for a in writes for c in xops]
+    fileops = ([["write", x, 1] for x in fs] + [["trunc", x] for x in (0, 30, 61, 100)] + [["iset", x, 1] for x in (30, 61, 60 + f, 60 + f + 1)]
+               + [["iexp"], ["punch"]])
+    return [[a, c] for a in xops + fileops for c in fileops] + [[a, c] for a in fileops for c in xops]
+
+
 def plan(tier, rng):
     behs = []
     if tier == "quick":
@@ -716,6 +893,9 @@ def plan(tier, rng):
             for a in alpha:
                 for c in alpha:
                     behs.append(dict(profile=pname, front="lib", persist=0, ops=[a, c]))
+        if PROFILES[pname]["inline"]:
+            for k, ops in enumerate(inline_catalogue(pname, tier)):
+                behs.append(dict(profile=pname, front="lib", persist=k % 2, ops=ops))
         for i in range(n_dbg):
             behs.append(dict(profile=pname, front="debugfs", persist=0, ops=gen_history(rng, pname, 6, "debugfs", tier)))
     return behs
@@ -751,7 +931,7 @@ def run(tier):
                 if nprob[key] <= 5:
                     vd.violation(key, "%s: profile %s front %s ops %s" % (what, beh["profile"], beh["front"], [describe(beh, k) for k in range(len(beh["ops"]))][:14]),
                                  {"behaviour": beh, "problem": what})
-            if len(lines) != 1 + len([o for o in beh["ops"] if beh["front"] == "lib" or o[0] in ("set", "rm")]) and not probs:
+            if len(lines) != 1 + len([o for o in beh["ops"] if beh["front"] == "lib" or o[0] in ("set", "rm", "punch", "mkdirin", "writein")]) and not probs:
                 die_broken("instrumentation incomplete: %d lines for %d operations" % (len(lines), len(beh["ops"])))
         t2 = time.time()
         acc = validate(vd, ev, work, behs, results)
@@ -766,14 +946,16 @@ def run(tier):
             for k in moves(lines):
                 mv[k] = mv.get(k, 0) + 1
         ev.cov["behaviours_by_relocation_kind"] = mv
-        if not all(mv.get(k) for k in ("i>b", "b>i", "*>ea", "ea>*")):
+        if not all(mv.get(k) for k in ("i>b", "b>i", "*>ea", "ea>*", "inline>block", "i_block>system.data")):
             die_broken("vacuous run: some relocation kind was never exercised: %s" % mv)
         for beh, (lines, probs) in zip(behs, results):
             if lines and nontrivial(lines):
                 ev.nontrivial(hashlib.sha1(json.dumps([beh["profile"], beh["front"], beh["ops"]]).encode()).hexdigest())
         ev.cov["rule"] = ("seeded histories of set/remove(/share/reopen) over the profile's closed universe (names x value-length classes x tags) on "
                           "%d profiles (inode 128/256/1024, ea_inode, metadata_csum, inline data) through libext2fs (fresh or persistent handle) and debugfs; "
-                          "non-trivial = some attribute moves between inode body, xattr block and value inode during the history; distinct by (profile, front end, operations)" % len(PROFILES))
+                          "inline-data inodes also get file writes / truncations / ext2fs_inline_data_* / punch / mkdir-in-directory from the boundary catalogue (random and all pairs); "
+                          "non-trivial = some attribute moves between inode body, xattr block and value inode, or the inline data crosses the i_block limit / is converted to a block, during the history; "
+                          "distinct by (profile, front end, operations)" % len(PROFILES))
         for i in (0, 1, len(behs) - 1):
             ev.sample({"behaviour": behs[i], "first_lines": [{k: v for k, v in x.items()} for x in results[i][0][:2]]})
         ev.cov["checker_cmd"] = ("TRACE=<chunk> tlc -workers 1 -config <Trace_<profile>.cfg> spec/Trace_XattrPlace.tla (POSTCONDITION TraceAccepted, INVARIANT I_* = "
@@ -785,6 +967,8 @@ def run(tier):
             "the filesystem has free blocks and inodes for every value inode (allocation failure paths are not explored)",
             "the peer inode's reference to the block is created with the public API (h_refcount + 1, i_file_acl, i_blocks), the state the kernel's mbcache produces",
             "consistency oracle = `e2fsck -fn` exit 0 at the end of each history",
+            "inline data: no xattr handle is kept open across an operation of the inline-data subsystem (no in-tree caller does); ext2fs_inline_data_set and set(system.data) are issued only on inodes that have EXT4_INLINE_DATA_FL (the driver skips them otherwise and the model must agree); "
+            "one history writes one content pattern into the inline area (the model's value abstraction is pattern prefix + zero tail); files are written at offset 0; a directory under test stays within one block after its conversion",
         ]
         return vd.finish()
     finally:
